@@ -58,7 +58,10 @@ def run(chk, F):
 
 def family(chk, F, fam, exact, withp, full, policy):
     # --- *_with_prefix: exact first, then the loop -------------------------------------------------
-    fn = F.find(CORE, withp)
+    # the normalised form: `a.or_else(|| ..)`, `find_map`/`any` closures and private helpers are put back as the match / loop
+    # they stand for; the stage functions the rule is about stay calls
+    stages = ("::" + exact.split("::")[-1], "::" + withp.split("::")[-1], "::" + full.split("::")[-1])
+    fn = F.find(CORE, withp, inline=True, keep=stages)
     fk = "rink_core::" + withp
     sites = calls_to(fn, exact)
     closures = F.closures_of(fn)
@@ -124,7 +127,7 @@ def family(chk, F, fam, exact, withp, full, policy):
             prefixed_value(chk, fn, fk, second[0])
     policy[fam] = pol
     # --- full lookup: plural retry only after --------------------------------------------------------
-    fn = F.find(CORE, full)
+    fn = F.find(CORE, full, inline=True, keep=stages)
     fk = "rink_core::" + full
     sites = calls_to(fn, withp)
     esites = calls_to(fn, exact)
